@@ -7,6 +7,7 @@ import (
 	"pgregory.net/rapid"
 
 	"verif/internal/stats"
+	"verif/internal/val"
 )
 
 // C10: Retract and Complete have exactly their documented control effect.
@@ -43,6 +44,30 @@ func TestC10(t *testing.T) {
 		}
 		if len(v) > 0 {
 			reportViolation(rt, col, "C10", c, rep, v)
+		}
+		// the same data context used for a second Execute (callers do re-use contexts): whatever the
+		// first call left behind, a Complete() or Retract() called during the second call must have
+		// its effect in that call. Only the retract/complete clauses are looked at here.
+		if rapid.IntRange(0, 2).Draw(rt, "reuse_data_context") == 0 && rep.Harness == "" && rep.DC != nil {
+			prep, perr := val.Prepare(c)
+			if perr != nil {
+				rt.Fatalf("harness: %v", perr)
+			}
+			c2 := *c
+			c2.ReuseLive, c2.ReuseDC = rep.Live, rep.DC
+			rep2 := val.Run(&c2, prep)
+			labels2 := []string{"data_context_reused", "first_call_ended:" + rep.EndedBy, "second_call_ended:" + rep2.EndedBy}
+			nt2 := rep.Completed && rep2.Completed
+			if nt2 {
+				labels2 = append(labels2, "complete_in_both_calls")
+			}
+			col.Case(c.Text+fmt.Sprint(c.Init.Go["F"].I64, c.MaxCycle, "reuse"), nt2, labels2...)
+			if v2 := rep2.Of("C10"); len(v2) > 0 && rep2.Excluded == "" {
+				for i := range v2 {
+					v2[i] = "second Execute on the same data context: " + v2[i]
+				}
+				reportViolation(rt, col, "C10", c, rep2, v2)
+			}
 		}
 	})
 }
